@@ -24,7 +24,10 @@ use std::collections::vec_deque::*;
 use std::result::{Result};
 
 use futures::prelude::*;
+#[cfg(not(desync_verif))]
 use futures::channel::oneshot;
+#[cfg(desync_verif)]
+use crate::verif::oneshot;
 use futures::future::{Future};
 
 #[cfg(not(target_arch = "wasm32"))]
